@@ -1208,12 +1208,16 @@ void OutgoingIqManager::finish(const QString &id, IqResult &&result)
 
 void OutgoingIqManager::cancelAll()
 {
-    for (auto &[id, state] : m_requests) {
+    // A continuation may issue new requests: work on a moved-out copy, so the iteration stays valid
+    // and requests started meanwhile are not erased unfinished.
+    auto requests = std::move(m_requests);
+    m_requests.clear();
+
+    for (auto &[id, state] : requests) {
         state.interface.finish(QXmppError {
             u"IQ has been cancelled."_s,
             QXmpp::SendError::Disconnected });
     }
-    m_requests.clear();
 }
 
 void OutgoingIqManager::onSessionOpened(const SessionBegin &session)
